@@ -4,7 +4,7 @@
    and cmdline/elem.h:1119-1220 (info word); it is tied to the real binary by harness/py/check_C15.py.
    infos : list N is the info array, position k = parity position k, 0 = unused position. *)
 From Coq Require Import NArith ZArith List Bool Lia.
-From Snap.Scrub Require Import ScrubModel ScrubInfo ScrubPlan ScrubBooks ScrubTheorems.
+From Snap.Scrub Require Import ScrubModel ScrubInfo ScrubPlan ScrubBooks ScrubTheorems ScrubCover.
 Import ListNotations.
 
 (* --- every plan: bad stripes always, unused positions never -------------------------------------------- *)
@@ -97,19 +97,29 @@ Theorem C15_refreshed_word : forall now, (0 <= now < 4294967296)%Z ->
   let w := info_make now false false false in
   Z.of_N (info_get_time w) = (8 * (now / 8))%Z /\ info_get_bad w = false /\ info_get_rehash w = false /\
   info_get_justsynced w = false.
-Proof.
-  intros now H. split; [exact (make_time_now now H)|]. split; [exact (make_bad now false false false)|].
-  split; [exact (make_rehash now false false false)|exact (make_justsynced now false false false)].
-Qed.
+Proof. exact refreshed_word. Qed.
 
 Theorem C15_bad_mark_keeps_rest : forall info,
   info_get_bad (info_set_bad info) = true /\ info_get_time (info_set_bad info) = info_get_time info /\
   info_get_rehash (info_set_bad info) = info_get_rehash info /\
   info_get_justsynced (info_set_bad info) = info_get_justsynced info.
-Proof.
-  intro info. split; [exact (set_bad_bad info)|]. split; [exact (set_bad_time info)|].
-  split; [exact (set_bad_rehash info)|exact (set_bad_justsynced info)].
-Qed.
+Proof. exact bad_mark_keeps_rest. Qed.
+
+(* --- repeated default scrubs eventually cover every stripe ------------------------------------------------------ *)
+(* refresh sel infos now : the info array after an error-free scrub at `now` (every selected stripe verified);
+   covered infos k nows  : stripe k is selected by one of the default scrubs (no -p, no -o) run at the clock values
+                           nows, each on the array left by the previous one;
+   rank infos k ik       : number of used stripes not younger than stripe k in (time, position) order, k included.
+   Clock values at least 10 days after the stripe's check time and below 2^32 (year 2106). *)
+Theorem C15_default_scrub_covers : forall nows infos k ik,
+  (N.of_nat (length infos) < 4294967296)%N -> nth_error infos k = Some ik -> ik <> 0%N ->
+  Forall (fun now => (Z.of_N (info_get_time ik) + 10 * 24 * 3600 <= now < 4294967296)%Z) nows ->
+  (rank infos k ik <= length nows)%nat -> covered infos k nows.
+Proof. exact default_scrub_covers. Qed.
+
+Theorem C15_refresh_is_model_run : forall sel infos now,
+  refresh sel infos now = apply_outcomes sel (repeat no_flags (length sel)) infos now.
+Proof. exact refresh_is_apply_outcomes. Qed.
 
 (* --- non-vacuity ------------------------------------------------------------------------------------------------ *)
 (* six positions: times 800 (new), 160, unused, 160, 160|bad, 480; -p 50 -o 0 at now = 1000:
@@ -145,7 +155,16 @@ Example C15_nonvacuous_books :
   verified [clean; changed] [par] = false /\ damaged [clean; changed] [par] = false.
 Proof. cbv zeta. repeat split; vm_compute; reflexivity. Qed.
 
+(* 13 stripes of the same age: the default quota is ceil(13/12) = 2 per run; the last stripe has rank 13 and is
+   reached by the 7th scrub (not before) when the clock advances 11 days per run *)
+Example C15_nonvacuous_cover :
+  let infos := repeat 1000%N 13 in
+  let nows := map (fun i => (1000000 * Z.of_nat i)%Z) (seq 1 7) in
+  rank infos 12 1000%N = 13%nat /\ covered infos 12 nows /\ ~ covered infos 12 (firstn 6 nows).
+Proof. cbv zeta. split; [vm_compute; reflexivity|]. split; vm_compute; intuition discriminate. Qed.
+
 Print Assumptions C15_bad_always.
+Print Assumptions C15_default_scrub_covers.
 Print Assumptions C15_full_all_used.
 Print Assumptions C15_new_only_justsynced.
 Print Assumptions C15_bad_plan_only_bad.
